@@ -98,11 +98,8 @@ func c07cF64(x *big.Float) float64 { f, _ := x.Float64(); return f }
 func (e *c07cEnv) tieSlots(c *Ctx) {
 	maxLevel := e.params.MaxLevel()
 	for ls := 0; ls <= e.logMax; ls++ {
-		if e.ci && ls == 0 {
-			continue // one slot in the conjugate-invariant ring: see probe decode_encode_precision (finding)
-		}
 		slots := 1 << ls
-		for rep := 0; rep < c.Scale(14, 70); rep++ {
+		for rep := 0; rep < c.Scale(30, 90); rep++ {
 			level := c.rng.Intn(maxLevel + 1)
 			// scale: power of two, or an odd number (non trivial mantissa)
 			logS := 20 + c.rng.Intn(26)
@@ -175,7 +172,7 @@ func (e *c07cEnv) tieSlots(c *Ctx) {
 
 func (e *c07cEnv) tieCoeffs(c *Ctx) {
 	maxLevel := e.params.MaxLevel()
-	for rep := 0; rep < c.Scale(80, 500); rep++ {
+	for rep := 0; rep < c.Scale(260, 700); rep++ {
 		level := c.rng.Intn(maxLevel + 1)
 		logS := 20 + c.rng.Intn(26)
 		scale := rlwe.NewScale(math.Exp2(float64(logS)))
@@ -287,7 +284,7 @@ func (e *c07cEnv) probeRoundTrip(c *Ctx) {
 	logN := e.params.LogN()
 	for ls := 0; ls <= e.logMax; ls++ {
 		slots := 1 << ls
-		for rep := 0; rep < c.Scale(12, 80); rep++ {
+		for rep := 0; rep < c.Scale(20, 80); rep++ {
 			level := c.rng.Intn(maxLevel + 1)
 			logS := 20 + c.rng.Intn(26)
 			logQ := e.params.LogQLvl(level)
